@@ -53,6 +53,7 @@ type RunSpec struct {
 	KeepTrace bool   `json:"keep_trace,omitempty"`
 	Variant   string `json:"variant,omitempty"`
 	Tier      string `json:"tier,omitempty"`
+	Stalls    bool   `json:"stalls,omitempty"`
 }
 
 type Violation struct {
